@@ -30,8 +30,9 @@ type def struct {
 var pool = []def{
 	{"KIF", `if`, true, false}, {"KI", `i`, true, false}, {"KIN", `in`, true, false}, {"EQ", `=`, true, false}, {"EQEQ", `==`, true, false},
 	{"DQ", `\"`, true, false}, {"BS", `\\`, true, false}, {"AQB", `a\"b`, true, false}, {"SL", `\/`, true, false},
+	{"QQ", `\"\"`, true, false}, {"QAQ", `\"a\"`, true, false}, {"BSBS", `\\\\`, true, false}, {"BSQ", `\\\"x`, true, false},
 	{"LOW", `[a-z]+`, false, false}, {"IX", `i[a-z]`, false, false}, {"IFIN", `if|in`, false, false}, {"EQS", `=+`, false, false},
-	{"INT", `[0-9]+`, false, false}, {"NUM", `[0-9]+(\.[0-9]+)?`, false, false}, {"QUOTE", `"`, false, false}, {"AQ", `a"b?`, false, false},
+	{"INT", `[0-9]+`, false, false}, {"NUM", `[0-9]+(\.[0-9]+)?`, false, false}, {"QUOTE", `"`, false, false}, {"AQ", `a"b?`, false, false}, {"QSTR", `"[a-z]*"`, false, false},
 	{"ID", `$ID`, false, true}, {"NUMBER", `$NUMBER`, false, true}, {"STRING", `$STRING`, false, true}, {"WS", `$WS`, false, true}, {"COMMENT", `$COMMENT`, false, true},
 }
 
